@@ -16,7 +16,7 @@ MOD = __name__
 
 PASS_THROUGH = ("map", "filter", "flatten", "flatten2", "pluck", "accumulate", "accumulate_nostart", "unique", "slice", "sliding_window",
                 "starmap", "union", "partition_unique")
-BUFFERING = ("buffer", "delay", "latest", "collect", "timed_window", "timed_window_unique", "map_async", "map_async_eager")
+BUFFERING = ("buffer", "delay", "latest", "collect", "timed_window", "timed_window_unique", "map_async", "map_async_eager", "map_async_raisecall")
 # (rate_limit is not one of them: its update() sleeps and then awaits its consumer, so an emit through it covers the consumer)
 
 
@@ -103,9 +103,21 @@ class Chain(PipeScenario):
                 return "map_async", a[0] + 1
         return None, None
 
+    def expected_background(self, err):
+        return ("map_async_raisecall" in self.site() and "Injected" in (err[1] + err[2])) or super().expected_background(err)
+
+    def emitted(self, pname=None):
+        out = super().emitted(pname)
+        if "map_async_raisecall" in self.site():
+            out = [x for x in out if x != 1]       # element 1 is the one the mapped function refuses
+        return out
+
     def _check(self, final):
         site = self.site()
         er = self.emit_raised()
+        if "map_async_raisecall" in site:
+            # only the refused element's own emit may fail; everything else flows on (no deadlock)
+            er = [e for e in er if not (e[3] == 1 and e[4] == "Injected")]
         if er:
             return Violation("emit-raised", site, er[0][4], er)
         name, bound = self._bound()
@@ -328,6 +340,9 @@ def plan(ctx):
         jobs.append((("zip", n, "future", "await", n + 2, 1), 2 if T else 1))
         jobs.append((("zip", n, "native", "await", n + 1, n + 1), 1))
         jobs.append((("zip", n, "future", "burst", n + 2, 1), 1))
+    for mode in ("await", "burst"):
+        jobs.append((("chain", "map_async_raisecall:1", "future", mode, 3, 1), 1))
+        jobs.append((("chain", "map_async_raisecall:2", "sync", mode, 4, 1), 1 if T else 0))
     for nd in ("", "map", "flatten2"):
         for kind in (("future", "native", "gen") if T else ("future", "native")):
             jobs.append((("fanout", nd, kind, "await", 2, ), 1))
